@@ -70,6 +70,9 @@ type concNested struct {
 type concProg struct {
 	text    string
 	threads [][]*concOp
+	// solo: thread 0 makes its first solo calls alone, before any other thread is scheduled
+	// (program text `pre/rest|…`): a prelude which brings the cache into a chosen state
+	solo    int
 	maxRef  int
 	hasExcl bool
 	hasPair bool
@@ -216,6 +219,14 @@ func parseConcProg(text string) (*concProg, error) {
 		return p, nil
 	}
 	q := &concParser{s: text, p: p}
+	if pre, _, ok := strings.Cut(text, "/"); ok {
+		for _, o := range strings.Split(pre, ",") {
+			if o != "" {
+				p.solo++
+			}
+		}
+		text = strings.Replace(text, "/", ",", 1)
+	}
 	for _, th := range strings.Split(text, "|") {
 		var ops []*concOp
 		for _, o := range strings.Split(th, ",") {
@@ -369,6 +380,7 @@ type concEntry struct {
 type concThread struct {
 	id         int
 	ops        []*concOp
+	nextOp     int // index of the top-level call the thread is about to make (written by the thread before it parks)
 	resume     chan struct{}
 	point      string
 	log        []string
@@ -650,10 +662,12 @@ func (e *concExec) threadMain(th *concThread) {
 		}
 		e.parked <- concPark{th.id, "dead"}
 	}()
-	for _, op := range th.ops {
+	for i, op := range th.ops {
+		th.nextOp = i
 		e.gate("op")
 		e.call(th, pdf.CursorAt(e.x, nil), op)
 	}
+	th.nextOp = len(th.ops)
 }
 
 // wait for the released thread to park, finish or die; the watchdog sends "stuck" when no
@@ -802,6 +816,12 @@ func (e *concExec) enabled(th *concThread) bool {
 
 func (e *concExec) enabledList() []int {
 	var l []int
+	if e.prog.solo > 0 && len(e.threads) > 0 {
+		// the prelude: thread 0 alone until it is about to make its first call after it
+		if t0 := e.threads[0]; t0.nextOp < e.prog.solo && e.enabled(t0) {
+			return []int{0}
+		}
+	}
 	for _, th := range e.threads {
 		if e.enabled(th) {
 			l = append(l, th.id)
